@@ -35,6 +35,12 @@ func init() {
 		}
 		one("Gemm", "transB=1", "x,w,b", []string{"w:3,2", "b:3"}, "x:1,2:0", 0)
 		one("Gemm", "", "x,w", []string{"w:2,3"}, "x:1,2:0", 0)
+		// weights that have exactly the shape of a single sample's result (broadcasting hands them through unchanged)
+		one("Gemm", "", "x,w,b", []string{"w:2,3", "b:1,3"}, "x:1,2:0", 0)
+		one("Gemm", "alpha=2;beta=3;transB=1", "x,w,b", []string{"w:3,2", "b:1,3"}, "x:1,2:0", 0)
+		one("Add", "", "x,w", []string{"w:1,2"}, "x:1,2:0", 0)
+		one("Mul", "", "w,x", []string{"w:1,2"}, "x:1,2:0", 0)
+		one("PRelu", "", "x,s", []string{"s:1,2"}, "x:1,2:0", 0)
 		one("MatMul", "", "x,w", []string{"w:2,3"}, "x:1,2:0", 0)
 		one("MatMul", "", "x,w", []string{"w:2,3"}, "x:1,2,2:0", 0)
 		one("MatMul", "", "w,x", []string{"w:3,2"}, "x:1,2,2:0", 0)
@@ -60,6 +66,23 @@ func init() {
 		one("Softmax", "axis=1", "x", nil, "x:1,3,2:0", 0)
 		one("Softmax", "axis=-2", "x", nil, "x:1,2,2:0", 0)
 		one("LogSoftmax", "axis=1", "x", nil, "x:1,2,2:0", 0)
+		// Softmax along the LAST axis of a batch, IEEE arithmetic on the grid {-200,0,200}^d: known finding
+		for _, op := range []string{"Softmax", "LogSoftmax"} {
+			for _, n := range []int{2, 3} {
+				cm := graphCase([]gnode{{op, "x", "o", "axis=-1"}}, []string{"x:1,2:0"}, nil, []string{"o"}, nil)
+				cm["sample"] = ""
+				cm["batched"] = []string{"x:1,2:0"}
+				cm["outaxis"] = []int{0}
+				cm["n"] = n
+				cm["grid"] = true
+				// quick: one path per grid point; thorough: all 81 points of N=2 in one solver query, N=3 per point
+				cm["enumerate"] = n > 2 || !th
+				if n > 2 && !th {
+					continue
+				}
+				p.Jobs = append(p.Jobs, Job{Harness: "gonnx.H_C16", Case: cm})
+			}
+		}
 		one("Flatten", "axis=1", "x", nil, "x:1,2,2:0", 0)
 		one("Reshape", "", "x,s", []string{"s:2:i64=0,-1"}, "x:1,2,2:0", 0)
 		one("Reshape", "", "x,s", []string{"s:3:i64=-1,2,2"}, "x:1,4:0", 0)
@@ -85,7 +108,7 @@ func init() {
 			"exact real arithmetic; every sample's inputs are solver variables; batch sizes N in {1,2,3}, the batch in given and in reversed order, each row compared with the evaluation of that sample alone",
 			"models: the repository's sample files mlp.onnx, scaler.onnx and gru.onnx (decoded natively by the real protobuf runtime and mirrored into the interpreter, real weights as exact rationals; gru with sequence lengths 1..3, so batch size == sequence length is included) and 45 generated models with symbolic weights: Gemm/MatMul against weights (data on either side), Conv 1-D/2-D, elementwise operators against weights, activations, PRelu, Softmax/LogSoftmax over a non-batch axis, Flatten/Reshape/Squeeze/Unsqueeze/Gather/Transpose keeping or moving the batch axis, Scaler, LinearRegressor, RNN/GRU/LSTM with batch on axis 1, and the Transpose-GRU-Squeeze-Transpose shape of the gru sample",
 		}
-		p.Outside = []string{"Softmax/LogSoftmax along the LAST axis with N > 1 (see C09 known finding: the results are equal over the reals but that needs exp(a+b)=exp(a)exp(b), which the uninterpreted exp cannot give)", "N > 3", "ndm.onnx (1.1 MB of weights)", "rounding: the statement is an identity over the reals (gorgonia's softmax seeds a slice maximum with the first element of the whole batch, which only affects rounding/overflow and is reported under C09)"}
+		p.Outside = []string{"Softmax/LogSoftmax along the LAST axis with N > 1 over the reals (equal there, but that needs exp(a+b)=exp(a)exp(b), which the uninterpreted exp cannot give); in IEEE arithmetic it is NOT batch independent: decided on the grid {-200,0,200} and reported as a known finding", "N > 3", "ndm.onnx (1.1 MB of weights)", "rounding: the statement is an identity over the reals (gorgonia's softmax seeds a slice maximum with the first element of the whole batch, which only affects rounding/overflow and is reported under C09)"}
 		p.Explanation = "NewModel + Model.Run on batches and on single samples executed symbolically"
 		return p
 	}
